@@ -30,27 +30,33 @@
                               Every Batch call of the scan therefore starts from empty chunk maps
                               (a non-empty batch clears the context at least once; the row cache that
                               survives is never read by ExecuteBatch).
-     next / batch             Complete + Expr.Execute(NewKVP(nil, nil), ctx) of an aggregate field:
+     next / batch             Complete + execGroupExpr of an aggregate field: ctx.Clear(), then
+                              Expr.Execute(col.First, ctx) on the pair that opened the group.
                               Model/Aggregate.v's [aexpr] (numbers, aggregate calls, + - * /) has no
-                              name and no pair-dependent term, so the context is not consulted.  A
-                              select field that mixes an aggregate call with a field name
-                              (`sum(n) + n`) is OUTSIDE this twin -- and on the real code the cache
-                              is visible there (see DESIGN / props C05).
+                              name and no pair-dependent term, so neither the pair nor the context is
+                              consulted.  A select field that mixes an aggregate call with a field
+                              name (`sum(n) + n`) has no [aexpr] and is OUTSIDE this twin (before the
+                              fix "a field name next to an aggregate call was evaluated on no pair at
+                              all" the cache was visible there; the harness judges such statements
+                              directly).
 
    FinalOrderPlan and FinalLimitPlan hand the context to their child and never look at it
    (order_plan.go, limit_plan.go): their twins are Model/Order.v / Model/LimitLazy.v unchanged, the
    limit node PULLS its child (the number of pulls is part of the composition).
 
-   [on] is ExecuteCtx.EnableCache.  The observation per pair ([Group.pobs]) is the one of
-   Model/SelectPlans.v ([c_obs_row] / [c_obs_batch]): an expression Go skips on a pair (key fields
-   of a known group, count's argument) is evaluated WITHOUT touching the context, so that the
-   values handed to Model/Aggregate.v are the same list as in the cache-free composition.
+   [on] is ExecuteCtx.EnableCache.  The aggregate layer sits on the LAZY twin
+   Model/AggregateLazy.v ([lobs_row] / [lobs_batch], instantiated in Model/SelectPlans.v as
+   [c_lobs_row] / [c_lobs_batch]): the cached observation asks for exactly the (expression, pair)
+   combinations the lazy observation asks for, in the same order -- nothing for GROUP BY when
+   AggrAll, the non-aggregate fields on the first pair of a group only, nothing for count's
+   argument (nil in its place) -- and the rows are completed by [lrun_row] / [lrun_batch]
+   (lazily under a pushed-down LIMIT).
 
    No proofs in this file (Proofs/CachePlansProofs.v). *)
 From Coq Require Import List String ZArith Bool Arith.
 Import ListNotations.
 From KV Require Import Base.Bytes Base.Num Model.Ast Model.Value Model.Eval Model.EvalVec Model.Cache
-                       Model.ScanProj Model.CacheVec Model.LimitLazy Model.SelectPlans.
+                       Model.ScanProj Model.CacheVec Model.LimitLazy Model.AggregateLazy Model.SelectPlans.
 From KV Require Model.Limit Model.Order Model.Aggregate Spec.Group.
 Local Open Scope nat_scope.
 Local Open Scope list_scope.
@@ -121,26 +127,6 @@ Fixpoint agg_free (sh : shape) : bool :=
   | SOrder _ ch => agg_free ch
   | SLimit _ _ ch => agg_free ch
   end.
-
-(* which aggregate calls evaluate their first argument (aggr_func.go: every Update except count's) *)
-Definition call_evaluates (c : Group.call) : bool :=
-  match Group.c_fun c with Group.ACount => false | _ => true end.
-
-Section Mask.
-Variable FT : Type.
-Definition all_calls (fields : list (Group.field FT)) : list Group.call :=
-  flat_map (fun f => match f with Group.FKey _ => [] | Group.FAgg _ calls => calls end) fields.
-(* argument i (index into [p_a]) is evaluated on a pair iff a call other than count uses it; the
-   harness numbers the arguments in the order AggregatePlan.listAggrFuncs visits the calls, one
-   argument per call, which is the order updateRowAggrFunc evaluates them in *)
-Definition arg_evaluated (fields : list (Group.field FT)) (i : nat) : bool :=
-  existsb (fun c => Nat.eqb (Group.c_arg c) i && call_evaluates c) (all_calls fields).
-Definition args_mask (aggr : option (bool * list (Group.field FT))) (n : nat) : list bool :=
-  match aggr with
-  | Some (_, fields) => map (arg_evaluated fields) (seq 0 n)
-  | None => []
-  end.
-End Mask.
 
 (* ================================================================ the instances with the cached evaluators *)
 Section CachePlans.
@@ -222,62 +208,76 @@ Definition run0 {A} (m : M fo A) : res A :=
   end.
 
 (* Expression.Execute(kvp, ctx) on each of [es], left to right ([SelectPlans.evals_row] with the
-   context threaded).  [evs] says per expression whether the Go code evaluates it on this pair
-   (missing = yes); a skipped one is evaluated without the context and leaves it alone. *)
-Fixpoint evals_c (on : bool) (evs : list bool) (es : list expr) (kv : kvpair) : M fo (list gvalue) :=
+   context threaded): getAggrKey's loop, createAggrRow's loop *)
+Fixpoint evals_c (on : bool) (es : list expr) (kv : kvpair) : M fo (list gvalue) :=
   match es with
   | [] => ret fo []
   | e :: es' =>
-      dc v <- (if hd true evs then eval_c fo re_match on (fst kv) (snd kv) e
-               else lift fo (eval fo re_match (fst kv) (snd kv) e));
+      dc v <- eval_c fo re_match on (fst kv) (snd kv) e;
       dc g <- lift fo (gval fo v);
-      dc gs <- evals_c on (tl evs) es' kv;
+      dc gs <- evals_c on es' kv;
       ret fo (g :: gs)
   end.
 
-(* getAggrKey on the GROUP BY values of a pair *)
-Definition group_key (p : plan) (g : list gvalue) : bytes :=
-  Aggregate.getAggrKey (f_fmt fo) (a_bits fo ag) true p (Group.PObs g [] []).
+(* updateRowAggrFunc ([SelectPlans.evals_need] with the context threaded): Execute of Args[0] for
+   the calls [need] selects; nothing is evaluated for the others (count), nil in their place *)
+Fixpoint evals_need_c (on : bool) (need : nat -> bool) (i : nat) (es : list expr) (kv : kvpair)
+  : M fo (list gvalue) :=
+  match es with
+  | [] => ret fo []
+  | e :: es' =>
+      if need i then
+        dc v <- eval_c fo re_match on (fst kv) (snd kv) e;
+        dc g <- lift fo (gval fo v);
+        dc gs <- evals_need_c on need (S i) es' kv;
+        ret fo (g :: gs)
+      else
+        dc gs <- evals_need_c on need (S i) es' kv;
+        ret fo (Group.VNil :: gs)
+  end.
 
-Definition key_seen (key : bytes) (seen : list bytes) : bool := existsb (String.eqb key) seen.
+(* [AggregateLazy.lobs_tail] with the context: `row, have := a.aggrMap[aggrKey]; if !have
+   { createAggrRow }; updateRowAggrFunc`, the context as left by what ran before on this pair.
+   [t]: the keys of aggrMap. *)
+Definition obs_tail_c (on : bool) (q : cq) (p : plan) (t : seen) (kv : kvpair) (g : list gvalue)
+  : M fo (pobs * seen) :=
+  let key := lkey (f_fmt fo) (a_bits fo ag) p g in
+  if seen_mem key t then
+    dc a <- evals_need_c on (arg_needed p) 0 (cq_args q) kv;
+    ret fo (Group.PObs g [] a, t)
+  else
+    dc k <- evals_c on (cq_keys q) kv;
+    dc a <- evals_need_c on (arg_needed p) 0 (cq_args q) kv;
+    ret fo (Group.PObs g k a, t ++ [key]).
 
-(* createAggrRow (new group only) and updateRowAggrFunc on one pair, the context as left by
-   what ran before on this pair *)
-Definition keys_args_c (on : bool) (q : cq) (isnew : bool) (kv : kvpair) : M fo (list gvalue * list gvalue) :=
-  dc k <- evals_c on (repeat isnew (List.length (cq_keys q))) (cq_keys q) kv;
-  dc a <- evals_c on (args_mask (F fo) (cq_aggr q) (List.length (cq_args q))) (cq_args q) kv;
-  ret fo (k, a).
+(* one iteration of prepare ([AggregateLazy.lobs_row]): ctx.Clear(), getAggrKey (nothing when
+   AggrAll), then the tail *)
+Definition obs_row_c (on : bool) (q : cq) (p : plan) (t : seen) (kv : kvpair) : res (pobs * seen) :=
+  run0 (dc g <- (if Group.pl_all p then ret fo [] else evals_c on (cq_group q) kv);
+        obs_tail_c on q p t kv g).
 
-(* the body of prepare's loop as far as expressions are evaluated: ctx.Clear(), getAggrKey,
-   createAggrRow if the key is new, updateRowAggrFunc.  [seen]: the keys of aggrMap. *)
-Definition obs_row_c (on : bool) (q : cq) (p : plan) (seen : list bytes) (kv : kvpair)
-  : res (pobs * list bytes) :=
-  run0 (dc g <- evals_c on [] (cq_group q) kv;
-        let key := group_key p g in
-        let isnew := negb (key_seen key seen) in
-        dc ka <- keys_args_c on q isnew kv;
-        ret fo (Group.PObs g (fst ka) (snd ka), if isnew then key :: seen else seen)).
-
-(* prepare: child.Next(nil) -- the filter without a context -- and the loop body per accepted pair *)
-Fixpoint agg_obs_row_c (on : bool) (q : cq) (p : plan) (seen : list bytes) (ps : list kvpair)
+(* prepare ([AggregateLazy.sdrain_row] over the pairs): child.Next(nil) -- the filter without a
+   context -- and the loop body per accepted pair *)
+Fixpoint agg_obs_row_c (on : bool) (q : cq) (p : plan) (t : seen) (ps : list kvpair)
   : res (list pobs) :=
   match ps with
   | [] => Ok []
   | kv :: ps' =>
       do ok <- filter_row fo re_match (fst kv) (snd kv) (s_where (cq_sel q));
       if ok then
-        do os <- obs_row_c on q p seen kv;
-        do rest <- agg_obs_row_c on q p (snd os) ps';
-        Ok (fst os :: rest)
-      else agg_obs_row_c on q p seen ps'
+        do ot <- obs_row_c on q p t kv;
+        do rest <- agg_obs_row_c on q p (snd ot) ps';
+        Ok (fst ot :: rest)
+      else agg_obs_row_c on q p t ps'
   end.
 
+(* next / batch on the prepared rows: Model/AggregateLazy.v (lazily under a pushed-down LIMIT) *)
 Definition run_agg_row (p : plan) (obs : list pobs) : res (list (list gvalue)) :=
-  of_exec (Aggregate.run_row (fadd fo) (fsub fo) (fmul fo) (fdiv fo) (fltb fo) (a_is0 fo ag) (f_of_Z fo) (a_to_Z fo ag)
-                             (f_fmt fo) (a_bits fo ag) (a_json_f fo ag) (a_parse fo ag) (a_json_s fo ag) true true p obs).
+  lrun_row (fadd fo) (fsub fo) (fmul fo) (fdiv fo) (fltb fo) (a_is0 fo ag) (f_of_Z fo) (a_to_Z fo ag)
+           (f_fmt fo) (a_bits fo ag) (a_json_f fo ag) (a_parse fo ag) (a_json_s fo ag) p obs.
 Definition run_agg_batch (B : nat) (p : plan) (chunks : list (list pobs)) : res (list (list gvalue)) :=
-  of_exec (Aggregate.run_batch (fadd fo) (fsub fo) (fmul fo) (fdiv fo) (fltb fo) (a_is0 fo ag) (f_of_Z fo) (a_to_Z fo ag)
-                               (f_fmt fo) (a_bits fo ag) (a_json_f fo ag) (a_parse fo ag) (a_json_s fo ag) true true p B chunks).
+  lrun_batch (fadd fo) (fsub fo) (fmul fo) (fdiv fo) (fltb fo) (a_is0 fo ag) (f_of_Z fo) (a_to_Z fo ag)
+             (f_fmt fo) (a_bits fo ag) (a_json_f fo ag) (a_parse fo ag) (a_json_s fo ag) p B chunks.
 
 (* AggregatePlan(scan) drained by Next, rows rendered *)
 Definition arows_c (on : bool) (q : cq) (p : plan) (ps : list kvpair) : res (list Order.row) :=
@@ -297,60 +297,64 @@ Fixpoint cols_seq_c (on : bool) (es : list expr) (ch : list kvpair) : MV fo (lis
       retv fo (col :: cols)
   end.
 
-(* the loop over the returned pairs ([SelectPlans.obs_zip] with the per-row cache): GROUP BY
-   values from the rows of the columns, then ctx.Clear(), createAggrRow (new key), updateRowAggrFunc *)
-Fixpoint obs_zip_c (on : bool) (q : cq) (p : plan) (seen : list bytes) (ch : list kvpair)
-    (grows : list (list value)) : res (list pobs * list bytes) :=
-  match ch, grows with
-  | [], _ => Ok ([], seen)
-  | kv :: ch', grow :: grows' =>
-      do g <- gvals fo grow;
-      let key := group_key p g in
-      let isnew := negb (key_seen key seen) in
-      do ka <- run0 (keys_args_c on q isnew kv);
-      do rest <- obs_zip_c on q p (if isnew then key :: seen else seen) ch' grows';
-      Ok (Group.PObs g (fst ka) (snd ka) :: fst rest, snd rest)
+(* batchGetAggrKeys ([SelectPlans.c_batch_g] with the context): the columns, then aggrKeyBytes pair
+   by pair, all before the first field / argument of the chunk's first pair; nothing when AggrAll *)
+Definition batch_g_c (on : bool) (q : cq) (p : plan) (ch : list kvpair) : MV fo (list (list gvalue)) :=
+  if Group.pl_all p then retv fo (map (fun _ => []) ch)
+  else
+    dv cols <- cols_seq_c on (cq_group q) ch;
+    liftv fo (do grows <- transpose fo ch cols; gvals_all fo grows).
+
+(* the loop over the returned pairs ([AggregateLazy.lobs_zip]): per pair ctx.Clear(), then the tail *)
+Fixpoint obs_zip_c (on : bool) (q : cq) (p : plan) (t : seen) (ch : list kvpair)
+    (gss : list (list gvalue)) : res (list pobs * seen) :=
+  match ch, gss with
+  | [], _ => Ok ([], t)
+  | kv :: ch', g :: gss' =>
+      do ot <- run0 (obs_tail_c on q p t kv g);
+      do rest <- obs_zip_c on q p (snd ot) ch' gss';
+      Ok (fst ot :: fst rest, snd rest)
   | _ :: _, [] => Panic
   end.
 
-(* one iteration of prepareBatch's loop: the scan's Batch from empty chunk maps, batchGetAggrKeys
-   on the context it leaves, the loop over the returned pairs.  State: aggrMap's keys, the slots
-   the scan still reads. *)
-Definition agg_batch_step_c (on : bool) (q : cq) (p : plan) (B : nat)
-    (st : list bytes * list (option kvpair)) : res (list pobs * (list bytes * list (option kvpair))) :=
-  match scan_batch_c fo re_match keyfix on (s_where (cq_sel q)) B (snd st) (ctx0 fo) with
-  | Ok (([], rest'), _) => Ok ([], (fst st, rest'))
-  | Ok ((kvs, rest'), cx) =>
-      match cols_seq_c on (cq_group q) kvs cx with
-      | Ok (cols, _) =>
-          do grows <- transpose fo kvs cols;
-          do r <- obs_zip_c on q p (fst st) kvs grows;
-          Ok (fst r, (snd r, rest'))
-      | Err e => Err e
-      | Panic => Panic
-      | OutOfModel => OutOfModel
-      end
+(* one iteration of prepareBatch on the pairs the scan returned ([AggregateLazy.lobs_batch]), the
+   chunk maps as the scan's Batch left them *)
+Definition obs_batch_c (on : bool) (q : cq) (p : plan) (t : seen) (ch : list kvpair) (cx : ctx fo)
+  : res (list pobs * seen) :=
+  match batch_g_c on q p ch cx with
+  | Ok (gss, _) => obs_zip_c on q p t ch gss
   | Err e => Err e
   | Panic => Panic
   | OutOfModel => OutOfModel
   end.
 
-(* prepareBatch: until the scan returns no rows *)
-Fixpoint agg_obs_batch_fuel (on : bool) (q : cq) (p : plan) (fuel B : nat)
-    (st : list bytes * list (option kvpair)) : res (list (list pobs)) :=
+(* the scan's Batch from empty chunk maps, then the iteration.  None: the scan returned no rows. *)
+Definition agg_batch_step_c (on : bool) (q : cq) (p : plan) (B : nat) (t : seen)
+    (rest : list (option kvpair)) : res (option (list pobs * seen) * list (option kvpair)) :=
+  match scan_batch_c fo re_match keyfix on (s_where (cq_sel q)) B rest (ctx0 fo) with
+  | Ok (([], rest'), _) => Ok (None, rest')
+  | Ok ((kvs, rest'), cx) => do ot <- obs_batch_c on q p t kvs cx; Ok (Some ot, rest')
+  | Err e => Err e
+  | Panic => Panic
+  | OutOfModel => OutOfModel
+  end.
+
+(* prepareBatch ([AggregateLazy.sdrain_batch]): until the scan returns no rows *)
+Fixpoint agg_obs_batch_fuel (on : bool) (q : cq) (p : plan) (fuel B : nat) (t : seen)
+    (rest : list (option kvpair)) : res (list (list pobs)) :=
   match fuel with
   | 0 => OutOfModel
   | S f =>
-      do r <- agg_batch_step_c on q p B st;
+      do r <- agg_batch_step_c on q p B t rest;
       match r with
-      | ([], _) => Ok []
-      | (obs, st') => do outs <- agg_obs_batch_fuel on q p f B st'; Ok (obs :: outs)
+      | (None, _) => Ok []
+      | (Some ot, rest') => do outs <- agg_obs_batch_fuel on q p f B (snd ot) rest'; Ok (fst ot :: outs)
       end
   end.
 
 Definition agg_obs_batch_c (on : bool) (q : cq) (p : plan) (B : nat) (sl : list (option kvpair))
   : res (list (list pobs)) :=
-  agg_obs_batch_fuel on q p (S (List.length sl)) B ([], sl).
+  agg_obs_batch_fuel on q p (S (List.length sl)) B [] sl.
 
 (* AggregatePlan(scan) drained by Batch: batch() hands out the prepared rows PlanBatchSize at a time *)
 Definition abats_c (on : bool) (q : cq) (B : nat) (p : plan) (sl : list (option kvpair))
